@@ -17,13 +17,17 @@ pub fn parse_val(kind: &str, tok: &str) -> V {
     }
 }
 
+/// bits of a float with every NaN shown as the canonical quiet NaN (sign and payload of a NaN are not part of any property,
+/// and the model driver prints NaNs canonically)
+pub fn fbits(x: f32) -> u32 { if x.is_nan() { 0x7FC0_0000 } else { x.to_bits() } }
+
 pub fn show_val(v: &V) -> String {
     match v {
-        V::F32(x) => x.to_bits().to_string(),
+        V::F32(x) => fbits(*x).to_string(),
         V::F64(x) => {
             let n = *x as f32;
             if (n as f64) == *x || x.is_nan() {
-                n.to_bits().to_string()
+                fbits(n).to_string()
             } else {
                 format!("{}!inexact", n.to_bits())
             }
